@@ -256,6 +256,15 @@ class CallMixin:
                 and a.args[0].args[1].value == 2:
             return self.expr(a.args[0].args[0], env, lambda c, t: self.as_int(c, t, lambda v: self.bind(
                 "Py.ceilLog2 {}".format(v), INT, k, "b")))
+        # idiom: int(sqrt(e)) — a float computation that stays ABSTRACT: the function `float_isqrt` is a parameter of the
+        # generated definition (the theorems instantiate it with the exact integer square root, the self-test with CPython's)
+        if isinstance(a, ast.Call) and src(a.func) in ("sqrt", "math.sqrt") and len(a.args) == 1 and not a.keywords:
+            ob = "float_isqrt"
+            if not any(n == ob for n, _, _ in self.observers):
+                from py2lean_types import TFun
+                self.observers.append((ob, TFun([INT], INT, True), ("call", "int(sqrt(·))", None)))
+            return self.expr(a.args[0], env, lambda c, t: self.as_int(c, t, lambda v: self.bind(
+                "{} {}".format(ob, v), INT, k, "z")))
         return self.expr(a, env, lambda c, t: self.as_int(c, t, lambda v: k(v, INT)))
 
     def b_sum(self, e, env, k):
